@@ -27,12 +27,38 @@ func receiverFieldUses(fn *ssa.Function) map[string]*fieldUse {
 		return out
 	}
 	recv := fn.Params[0].Name()
+	curKey := ""
 	classifyLoad := func(u *fieldUse, ld ssa.Value) {
 		for _, ref := range *ld.Referrers() {
 			if c, ok := ref.(*ssa.Call); ok {
 				if b, isB := c.Call.Value.(*ssa.Builtin); isB && b.Name() == "len" {
 					u.length = true
 					continue
+				}
+				// the digest is assembled by a helper of the same package: the field counts as far as the helper uses
+				// the parameter it arrives in
+				if h := samePkgHelper(fn, c); h != nil {
+					handled := false
+					for k, a := range c.Call.Args {
+						if a != ld || k >= len(h.Params) {
+							continue
+						}
+						handled = true
+						pu, sub := paramUses(h, k, 1)
+						u.content = u.content || pu.content
+						u.length = u.length || pu.length
+						for name, su := range sub {
+							key := curKey + "." + name
+							if out[key] == nil {
+								out[key] = &fieldUse{}
+							}
+							out[key].content = out[key].content || su.content
+							out[key].length = out[key].length || su.length
+						}
+					}
+					if handled {
+						continue
+					}
 				}
 			}
 			if _, isDbg := ref.(*ssa.DebugRef); isDbg {
@@ -56,6 +82,7 @@ func receiverFieldUses(fn *ssa.Function) map[string]*fieldUse {
 			u = &fieldUse{}
 			out[key] = u
 		}
+		curKey = key
 		for _, ref := range *fa.Referrers() {
 			switch x := ref.(type) {
 			case *ssa.UnOp:
@@ -71,6 +98,73 @@ func receiverFieldUses(fn *ssa.Function) map[string]*fieldUse {
 		}
 	})
 	return out
+}
+
+// paramUses classifies how helper h uses its parameter #k (content / length), and — for a struct parameter — how it
+// uses each of its fields.
+func paramUses(h *ssa.Function, k int, depth int) (fieldUse, map[string]*fieldUse) {
+	var u fieldUse
+	sub := map[string]*fieldUse{}
+	if k >= len(h.Params) {
+		return u, sub
+	}
+	var classify func(v ssa.Value, tgt *fieldUse)
+	classify = func(v ssa.Value, tgt *fieldUse) {
+		for _, ref := range *v.Referrers() {
+			switch x := ref.(type) {
+			case *ssa.DebugRef:
+			case *ssa.Call:
+				if b, isB := x.Call.Value.(*ssa.Builtin); isB && b.Name() == "len" {
+					tgt.length = true
+					continue
+				}
+				if h2 := samePkgHelper(h, x); h2 != nil && depth > 0 {
+					for j, a := range x.Call.Args {
+						if a == v {
+							pu, _ := paramUses(h2, j, depth-1)
+							tgt.content = tgt.content || pu.content
+							tgt.length = tgt.length || pu.length
+						}
+					}
+					continue
+				}
+				tgt.content = true
+			case *ssa.Field:
+				name := fieldName(x.X.Type(), x.Field)
+				if sub[name] == nil {
+					sub[name] = &fieldUse{}
+				}
+				classify(x, sub[name])
+			case *ssa.Store: // by-value struct parameter spilled into a local: follow the local's fields
+				if al, ok := x.Addr.(*ssa.Alloc); ok && x.Val == v {
+					for _, r2 := range *al.Referrers() {
+						if fa, ok := r2.(*ssa.FieldAddr); ok {
+							name := fieldName(fa.X.Type(), fa.Field)
+							if sub[name] == nil {
+								sub[name] = &fieldUse{}
+							}
+							for _, r3 := range *fa.Referrers() {
+								if ld, ok := r3.(*ssa.UnOp); ok && ld.Op == token.MUL {
+									classify(ld, sub[name])
+								}
+							}
+						}
+					}
+					continue
+				}
+				tgt.content = true
+			default:
+				tgt.content = true
+			}
+		}
+	}
+	classify(h.Params[k], &u)
+	for _, su := range sub {
+		if su.content {
+			u.content = true
+		}
+	}
+	return u, sub
 }
 
 // lengthsEncoded: does any len(...) value in fn flow into something other than the size of a make?
@@ -397,6 +491,124 @@ func runC04(w *World, r *Report) {
 				}
 			}
 		}
+	}
+
+	// 3b. a digest assembled by copying into a pre-sized buffer: the buffer has room for every fixed-width part
+	// (copy() into a slice that is too short silently writes less: the last field would drop out of the signature)
+	r.rule("digest-buffer-fits", "when a signed message is assembled with copy() into make([]byte, Σ len(variable parts) + C), C is at least the total width of the fixed-width parts copied in", 1)
+	nBuf := 0
+	for _, cv := range [][3]string{{"accountant", "Vertex", "initData"}, {"transaction", "Transaction", "GetMessage"}} {
+		f := w.fx(r, cv[0], cv[1], cv[2])
+		if f == nil {
+			continue
+		}
+		for _, fn := range withHelpers(f.fn, 1) {
+			instrsOf(fn, func(in ssa.Instruction) {
+				mk, ok := in.(*ssa.MakeSlice)
+				if !ok {
+					return
+				}
+				// constant term of the length expression
+				var constTerm func(v ssa.Value) (int64, bool)
+				constTerm = func(v ssa.Value) (int64, bool) {
+					switch x := v.(type) {
+					case *ssa.Const:
+						return intConst(x)
+					case *ssa.BinOp:
+						if x.Op == token.ADD {
+							a, okA := constTerm(x.X)
+							b, okB := constTerm(x.Y)
+							return a + b, okA && okB
+						}
+						return 0, false
+					case *ssa.Call:
+						if bi, isB := x.Call.Value.(*ssa.Builtin); isB && bi.Name() == "len" {
+							return 0, true
+						}
+					case *ssa.Convert:
+						return constTerm(x.X)
+					}
+					return 0, false
+				}
+				c, okC := constTerm(mk.Len)
+				if !okC {
+					return
+				}
+				if k, isK := intConst(mk.Len); isK && k <= 8 {
+					return // a fixed-width scratch buffer, not the message
+				}
+				// fixed-width parts copied into (reslices of) this buffer
+				var fixed int64
+				parts := 0
+				instrsOf(fn, func(in2 ssa.Instruction) {
+					cp, ok := in2.(*ssa.Call)
+					if !ok {
+						return
+					}
+					if bi, isB := cp.Call.Value.(*ssa.Builtin); !isB || bi.Name() != "copy" {
+						return
+					}
+					dst := cp.Call.Args[0]
+					for i := 0; i < 4; i++ {
+						if sl, isSl := dst.(*ssa.Slice); isSl {
+							dst = sl.X
+						}
+					}
+					if dst != ssa.Value(mk) {
+						return
+					}
+					src := cp.Call.Args[1]
+					width := int64(-1)
+					switch y := src.(type) {
+					case *ssa.MakeSlice:
+						if k, isK := intConst(y.Len); isK {
+							width = k
+						}
+					case *ssa.Slice:
+						var lo int64
+						loOK := true
+						if y.Low != nil {
+							lo, loOK = intConst(y.Low)
+						}
+						if loOK && y.High != nil {
+							if hi, isK := intConst(y.High); isK {
+								width = hi - lo
+							}
+						} else if loOK {
+							if pt, isP := y.X.Type().Underlying().(*types.Pointer); isP {
+								if arr, isA := pt.Elem().Underlying().(*types.Array); isA {
+									width = arr.Len() - lo
+								}
+							}
+						}
+					}
+					if width >= 0 {
+						// executed once per element of a constant-length literal when it sits in such a range loop
+						mult := int64(1)
+						if h := enclosingRangeHeader(cp.Block()); h != nil && len(h.Instrs) > 0 {
+							if iff, isIf := h.Instrs[len(h.Instrs)-1].(*ssa.If); isIf {
+								if bo, isBo := iff.Cond.(*ssa.BinOp); isBo && bo.Op == token.LSS {
+									if k, isK := intConst(bo.Y); isK && k > 0 {
+										mult = k
+									}
+								}
+							}
+						}
+						fixed += width * mult
+						parts += int(mult)
+					}
+				})
+				if parts == 0 {
+					return
+				}
+				nBuf++
+				r.check(c >= fixed, "digest-buffer-fits", shortFn(fn)+"/make", lineOf(w, mk), "the message buffer has room for its fixed-width parts",
+					fmt.Sprintf("%d fixed-width parts of %d bytes in total are copied into a buffer that reserves only %d bytes beyond the variable parts: the last part is silently truncated out of the signed message", parts, fixed, c))
+			})
+		}
+	}
+	if nBuf == 0 {
+		r.ok("digest-buffer-fits", "none", "-", "no digest is assembled by copying fixed-width parts into a pre-sized buffer")
 	}
 
 	// 4. injectivity
